@@ -9,7 +9,10 @@
      to it; what `reconfigure` hands to the engine and in which order programs run; `hint` receiver;
      hint/engine/dispatch.rs — which definition maps `reset(program)` resets;
      hint/definition.rs — that `DefinitionMap::reset` fills with defaults;
-     skrifa/src/outline/hint.rs — the same classification for `HintingInstance::reconfigure`.
+     skrifa/src/outline/hint.rs — the same classification for `HintingInstance::reconfigure`, and whether its
+     Engine::Auto arm hands the replaced instance to autohint::Instance::new;
+     skrifa/src/outline/autohint/{instance.rs, metrics/mod.rs} — fields / parameters of the autohinter instance, its
+     lazily filled lock-protected cache and whether `new` builds it from scratch.
 
 Only the statement shapes listed in the parsers below are understood.  Anything else is a loud
 failure (exit 1): the translation tie is then reported broken, never silently skipped.
@@ -835,6 +838,86 @@ def parse_outer(src):
     return fields, table, cff_cleared, coords_src
 
 
+def parse_autohint(hint_src, inst_src, metrics_src):
+    """Engine::Auto arm of HintingInstance::reconfigure, autohint::Instance and its lazily filled cache."""
+    what = "outline/hint.rs::reconfigure Engine::Auto arm"
+    params, body = fn_body(hint_src, r"pub\s+fn\s+reconfigure\s*<'a>\s*\(", what)
+    m = re.search(r"Engine::Auto\(\s*(\w+)\s*\)\s*=>\s*\{", body)
+    if not m:
+        fail("%s: arm `Engine::Auto(x) => { .. }` not found" % what)
+    arm = body[m.end():match_close(body, m.end() - 1)]
+    mm = re.search(r"autohint::Instance::new\s*\(", arm)
+    if not mm:
+        fail("%s: autohint::Instance::new(..) call not found" % what)
+    j = match_close(arm, mm.end() - 1, "(", ")")
+    args = [norm(x) for x in split_top(arm[mm.end():j], ",") if norm(x)]
+    # anything derived from the instance that is being replaced
+    tainted = {"current_kind"}
+    for lm in re.finditer(r"let\s+(?:mut\s+)?(\w+)\s*=\s*([^;]*);", arm):
+        if any(re.search(r"\b%s\b" % re.escape(t), lm.group(2)) for t in tainted) or "self.kind" in lm.group(2):
+            tainted.add(lm.group(1))
+    arm_reuses = any(re.search(r"\b%s\b" % re.escape(t), a) for t in tainted for a in args) or any("self.kind" in a for a in args)
+    if not re.search(r"self\s*\.\s*kind\s*=\s*HinterKind::Auto\(\s*instance\s*\)", arm):
+        fail("%s: `self.kind = HinterKind::Auto(instance)` not found" % what)
+    # autohint::Instance
+    what2 = "outline/autohint/instance.rs"
+    fields = struct_fields(inst_src, "Instance", what2)
+    im = re.search(r"impl\s+Instance\s*\{", inst_src)
+    if not im:
+        fail("%s: impl Instance not found" % what2)
+    impl = inst_src[im.end():match_close(inst_src, im.end() - 1)]
+    nparams, nbody = fn_body(impl, r"pub\s+fn\s+new\s*\(", what2 + "::Instance::new")
+    plist = []
+    for prm in split_top(nparams[1:-1], ","):
+        prm = norm(prm)
+        if not prm:
+            continue
+        pm = re.match(r"(\w+)\s*:\s*(.+)$", prm)
+        if not pm:
+            fail("%s::new: parameter not understood: %r" % (what2, prm))
+        plist.append((pm.group(1), pm.group(2)))
+    if len(plist) != len(args):
+        fail("%s: Instance::new takes %d parameters but the Auto arm passes %d" % (what2, len(plist), len(args)))
+    takes_previous = any(re.search(r"\b(Instance|Self|HintingInstance|UnscaledStyleMetricsSet)\b", t) for _, t in plist)
+    # the instance is assembled with a shorthand initialiser of exactly its fields
+    sm = re.search(r"Self\s*\{([^}]*)\}\s*$", nbody.strip())
+    if not sm:
+        fail("%s::new: does not end with `Self { .. }`" % what2)
+    inits = [tight(x) for x in sm.group(1).split(",") if tight(x)]
+    if sorted(inits) != sorted(f for f, _ in fields):
+        fail("%s::new: initialiser %r is not the shorthand list of the fields %r" % (what2, inits, [f for f, _ in fields]))
+    # lazily filled / shared state: variants of the metrics set with interior mutability
+    what3 = "outline/autohint/metrics/mod.rs"
+    em = re.search(r"enum\s+UnscaledStyleMetricsSet\s*\{", metrics_src)
+    if not em:
+        fail("%s: enum UnscaledStyleMetricsSet not found" % what3)
+    ebody = metrics_src[em.end():match_close(metrics_src, em.end() - 1)]
+    variants = []
+    for part in split_top(ebody, ","):
+        part = re.sub(r"^(\s*#\[[^\]]*\]\s*)*", "", part.strip())
+        if part:
+            variants.append(tight(part))
+    lazy_variants = [v for v in variants if INTERIOR.search(v)]
+    # which Instance fields hold such state (type = the metrics set, or directly interior-mutable)
+    lazy_fields = [f for f, t in fields if INTERIOR.search(t) or (lazy_variants and re.search(r"\bUnscaledStyleMetricsSet\b", t))]
+    # every lazily filled field must be built from scratch by `new`: all `let <field> = ..;` right-hand sides are
+    # constructor calls on the arguments
+    built_fresh = True
+    detail = []
+    for f in lazy_fields:
+        rhss = [tight(x.group(1)) for x in re.finditer(r"let\s+%s\s*=\s*([^;]*);" % re.escape(f), nbody)]
+        if not rhss:
+            built_fresh = False
+            detail.append("%s: no `let %s = ..`" % (f, f))
+        ctor = r"UnscaledStyleMetricsSet::(lazy|precomputed)\([^{};]*\)"
+        for r in rhss:
+            ok = re.fullmatch(ctor, r) or re.fullmatch(r"iflazy_metrics\{%s\}else\{%s\}" % (ctor, ctor), r)
+            detail.append("%s = %s" % (f, r[:90]))
+            if not ok:
+                built_fresh = False
+    return arm_reuses, args, fields, plist, takes_previous, lazy_variants, lazy_fields, built_fresh, detail
+
+
 # ------------------------------------------------------------------ output
 
 def coq_str(s):
@@ -860,6 +943,8 @@ def main():
     disp = cut_tests(strip_comments(read(base + "glyf/hint/engine/dispatch.rs")))
     defs = cut_tests(strip_comments(read(base + "glyf/hint/definition.rs")))
     hint = cut_tests(strip_comments(read(base + "hint.rs")))
+    ainst = cut_tests(strip_comments(read(base + "autohint/instance.rs")))
+    ametr = cut_tests(strip_comments(read(base + "autohint/metrics/mod.rs")))
 
     ft = parse_memory_new(mem, "FreeTypeOutlineMemory", "memory.rs::FreeTypeOutlineMemory")
     hb = parse_memory_new(mem, "HarfBuzzOutlineMemory", "memory.rs::HarfBuzzOutlineMemory")
@@ -884,6 +969,7 @@ def main():
     if len(defmaps) != len(ds_params):
         fail("instance.rs::reconfigure passes %d maps to DefinitionState::new(%s)" % (len(defmaps), ", ".join(ds_params)))
     o_fields, o_table, cff_cleared, coords_src = parse_outer(hint)
+    (arm_reuses, auto_args, a_fields, a_params, takes_previous, lazy_variants, lazy_fields, built_fresh, a_detail) = parse_autohint(hint, ainst, ametr)
 
     used_types = []
     for row in ft + hb:
@@ -973,6 +1059,22 @@ def main():
     w("(* the reused Vec<cff::Subfont> is cleared before being refilled; coords come from effective_coords() *)")
     w("Definition cff_subfonts_cleared : bool := %s." % ("true" if cff_cleared else "false"))
     w("Definition coords_from_effective_coords : bool := %s." % ("true" if coords_src else "false"))
+    w("")
+    w("(* outline/hint.rs Engine::Auto arm + outline/autohint/instance.rs + autohint/metrics/mod.rs:")
+    w("   the autohinter instance is rebuilt by reconfigure; its lazily filled, lock-protected per-style metrics cache")
+    w("   depends on (font, location) and must therefore not survive a reconfigure *)")
+    w("Definition autohint_instance_fields : list string := [%s]." % "; ".join(coq_str(f) for f, _ in a_fields))
+    w("Definition autohint_new_params : list (string * string) := [%s]." % "; ".join("(%s, %s)" % (coq_str(n), coq_str(t)) for n, t in a_params))
+    w("Definition autohint_new_args_in_reconfigure : list string := [%s]." % "; ".join(coq_str(a) for a in auto_args))
+    w("(* variants of UnscaledStyleMetricsSet with interior mutability, and the Instance fields holding them *)")
+    w("Definition autohint_lazy_variants : list string := [%s]." % "; ".join(coq_str(v) for v in lazy_variants))
+    w("Definition autohint_lazy_fields : list string := [%s]." % "; ".join(coq_str(f) for f in lazy_fields))
+    w("(* the Auto arm hands (something derived from) the instance being replaced to Instance::new *)")
+    w("Definition auto_arm_reuses_previous : bool := %s." % ("true" if arm_reuses else "false"))
+    w("(* Instance::new has a parameter that can carry a previous instance / metrics set *)")
+    w("Definition autohint_new_takes_previous : bool := %s." % ("true" if takes_previous else "false"))
+    w("(* every lazily filled field is constructed from the arguments: %s *)" % "; ".join(a_detail).replace("*)", "* )").replace("(*", "( *"))
+    w("Definition autohint_lazy_fields_built_fresh : bool := %s." % ("true" if built_fresh else "false"))
     txt = "\n".join(o) + "\n"
     os.makedirs(os.path.dirname(OUT), exist_ok=True)
     old = open(OUT).read() if os.path.exists(OUT) else None
